@@ -223,6 +223,14 @@ def rotate(ctx, rng, xr):
         if h_in > 0 and abs(h_out - h_in) > 2e-9 * h_in:
             rec.bad("rotate", key, dict(det, position=p, hs_in=np.sqrt(h_in), hs_out=np.sqrt(h_out)), "rotate-changes-hs")
             continue
+        # any angle: relabelled source interpolated linearly on the circle back onto the grid, one factor
+        refu = ref_interp(ei, f, (th + angle) % 360.0, None, th)
+        h_ref = hs2(refu, f, dd)
+        if h_in > 0 and h_ref > 1e-14 * h_in:
+            ok, worst = close(eo, refu * (h_in / h_ref), 1e-9, atol=1e-9 * sc)
+            if not ok:
+                rec.bad("rotate", key, dict(det, position=p, worst_over_tol=worst, output=eo, expected=refu * (h_in / h_ref)), "rotate-differs-from-circular-interpolant")
+                continue
         if kind in ("bins", "full_turn", "zero"):
             kk = int(round(angle / dd))
             want = np.roll(ei[:, order], kk, axis=1)[:, inv]     # energy at d moves to d + angle
